@@ -983,6 +983,8 @@ impl Session {
             if let Err(e) = writer.write_all(&buffer).await {
                 return Err(self.handle_io_error("write_without_padding", e).await);
             }
+            #[cfg(anytls_verif)]
+            crate::verif::point("wp.flush").await;
             if let Err(e) = writer.flush().await {
                 return Err(self.handle_io_error("flush_without_padding", e).await);
             }
@@ -1018,6 +1020,8 @@ impl Session {
             if let Err(e) = writer.write_all(&buffer).await {
                 return Err(self.handle_io_error("write_no_padding_stop", e).await);
             }
+            #[cfg(anytls_verif)]
+            crate::verif::point("wp.flush").await;
             if let Err(e) = writer.flush().await {
                 return Err(self.handle_io_error("flush_no_padding_stop", e).await);
             }
@@ -1035,6 +1039,8 @@ impl Session {
             if let Err(e) = writer.write_all(&buffer).await {
                 return Err(self.handle_io_error("write_no_padding_sizes", e).await);
             }
+            #[cfg(anytls_verif)]
+            crate::verif::point("wp.flush").await;
             if let Err(e) = writer.flush().await {
                 return Err(self.handle_io_error("flush_no_padding_sizes", e).await);
             }
